@@ -338,7 +338,14 @@ impl DocumentBuilder<'_> {
             let mut ty = self.choose_ty(&self.list_existing_input_types())?;
             // Prevent required self-referential input object fields, which
             // would make the type impossible to construct.
-            if self_name.is_some_and(|n| ty.name() == n) {
+            // The same goes for a required reference to an input object that itself requires
+            // this one, directly or through further input objects.
+            let closes_required_cycle = self_name.is_some_and(|n| {
+                ty.name() == n
+                    || (matches!(&ty, Ty::NonNull(inner) if matches!(**inner, Ty::Named(_)))
+                        && self.input_object_requires(ty.name(), n))
+            });
+            if closes_required_cycle {
                 if let Ty::NonNull(inner) = ty {
                     ty = *inner;
                 }
@@ -364,6 +371,32 @@ impl DocumentBuilder<'_> {
 
         Ok(input_values)
     }
+    /// Whether a value of input object `from` must contain a value of input object `target`:
+    /// `from` reaches `target` through non-null, non-list fields only.
+    fn input_object_requires(&self, from: &Name, target: &Name) -> bool {
+        let mut seen: Vec<&Name> = Vec::new();
+        let mut todo = vec![from];
+        while let Some(name) = todo.pop() {
+            if seen.contains(&name) {
+                continue;
+            }
+            seen.push(name);
+            for def in self.input_object_type_defs.iter().filter(|io| &io.name == name) {
+                for field in &def.fields {
+                    if let Ty::NonNull(inner) = &field.ty {
+                        if let Ty::Named(required) = &**inner {
+                            if required == target {
+                                return true;
+                            }
+                            todo.push(required);
+                        }
+                    }
+                }
+            }
+        }
+        false
+    }
+
     /// Create an arbitrary `InputValueDef`. The caller passes
     /// `directive_location` for the same reason as
     /// [`input_values_def`](Self::input_values_def).
